@@ -58,6 +58,11 @@ func RunGateScenario(sc *GateScenario, r *Runner) error {
 		done <- l
 	case <-time.After(10 * time.Second):
 	}
+	type pendingOp struct {
+		line     M
+		finished chan struct{}
+	}
+	var late []pendingOp
 	if parked {
 		// the parked goroutine holds locks of the core (the application lock inside a scheduling cycle): the "during"
 		// operations are sent to the core but the state cannot be projected until the parked goroutine is released
@@ -76,8 +81,12 @@ func RunGateScenario(sc *GateScenario, r *Runner) error {
 			}()
 			select {
 			case <-finished:
-			case <-time.After(10 * time.Second):
-				line["blockedByParked"] = true // the operation waits for a lock the parked goroutine holds: release it first
+			case <-time.After(3 * time.Second):
+				// the operation waits for a lock the parked goroutine holds: it will complete AFTER the gated operation,
+				// so this is not the interleaving the scenario asks for; its line is written after the gated one
+				line["blockedByParked"] = true
+				late = append(late, pendingOp{line, finished})
+				continue
 			}
 			line["msgs"], line["pred"] = w.H.Drain()
 			line["state"] = w.lastState
@@ -96,17 +105,39 @@ func RunGateScenario(sc *GateScenario, r *Runner) error {
 		line["panic"], line["hang"], line["dpanic"] = "", true, 0
 		w.dead = true
 	}
+	// operations that could only run after the gated one: wait for them before looking at the state
+	for _, lp := range late {
+		select {
+		case <-lp.finished:
+		case <-time.After(20 * time.Second):
+			lp.line["hang"] = true
+			line["hang"] = true
+		}
+	}
 	b, _ := json.Marshal(sc.Gated)
 	line["gatedOp"] = string(b)
 	line["op"] = "gated"
 	line["point"], line["parked"] = sc.Point, parked
+	during := []string{}
+	for _, op := range sc.During {
+		during = append(during, gs(op, "op"))
+	}
+	line["during"] = during
+	line["lateOps"] = len(late)
 	if !w.dead {
+		w.settle()
 		w.AfterStep(line)
 	} else {
 		line["msgs"], line["pred"], line["state"] = []M{}, []M{}, w.lastState
 	}
 	if err := r.emit(line); err != nil {
 		return err
+	}
+	for _, lp := range late {
+		lp.line["msgs"], lp.line["pred"], lp.line["state"] = []M{}, []M{}, w.lastState
+		if err := r.emit(lp.line); err != nil {
+			return err
+		}
 	}
 	for _, op := range sc.After {
 		if err := r.Step(op); err != nil {
